@@ -110,6 +110,29 @@ def run(ctx):
                     ctx.violation("monitor", "optimiser output is %s" % why, {"case": case})
                 if not np.array_equal(keep, S):
                     ctx.violation("monitor", "covariance argument modified", {"case": case})
+                # the same covariance in other containers: single precision (the values rounded to float32 ARE the input
+                # then), Fortran order, a read-only array - the output must be a proper MRF whatever the container
+                for form in ("float32", "fortran", "readonly"):
+                    if form == "float32":
+                        Sf = np.asarray(S, dtype=np.float32)
+                        if not np.all(np.isfinite(Sf)):
+                            continue
+                        # rounding the entries to single precision can push a (nearly) singular covariance out of the
+                        # property's domain: an indefinite matrix is not a covariance, and the problem has no optimum then
+                        evf = np.linalg.eigvalsh(np.atleast_2d(Sf).astype(np.float64))
+                        if evf.min() < -1e-13 * max(evf.max(), 1e-300):
+                            ctx.count("entry-point:float32-skipped-not-psd")
+                            continue
+                    elif form == "fortran":
+                        Sf = np.asfortranarray(S)
+                    else:
+                        Sf = np.array(S, copy=True)
+                        Sf.setflags(write=False)
+                    ctx.count("entry-point:" + form)
+                    compf = admm.admm_optimize_theta(Sf, lam, W, N).theta
+                    whyf = spd_report(mc.reinflate_matrix(compf))
+                    if whyf:
+                        ctx.violation("monitor", "optimiser output for the covariance passed as %s is %s" % (form, whyf), {"case": dict(case, S_form=form)})
                 # floor predicate
                 for eps in (1e-6, 1e-3, 0.1):
                     F = gl._zero_small_elements(Th, eps)
